@@ -131,19 +131,34 @@ package trend
 //@ lit#0 thenuse wmin_char(cs[0], pos(calls + 1 - m.Period), calls + 1, ret)
 //@ use wmin_cong(cs[0], c, _, _)
 
+// WMA = ((Value1 * 1/N) + (Value2 * 2/N) + ...) / 2 over the last N values (as documented)
+//@ stream wmaS(c stream, P int)[k] = wmaW(c, k, P, P) / 2
 //@ func Wma.Compute
 //@ requires w.Period >= 1 && consumed(values) == 0
 //@ ensures[C02] len(result) == max(0, len(values) - (w.IdlePeriod()))
 //@ ensures[C03] consumed(values) == len(values) && closed(result)
 //@ ensures[C04] forall kk :: 0 <= kk && kk < len(result) ==> hor(result, kk) <= hor(values, kk + (w.IdlePeriod()))
-//@ lit#0 invariant rwf(window) && len(window.buffer) == w.Period
-//@ loop#0 invariant 0 <= i && i <= w.Period && rwf(window) && len(window.buffer) == w.Period
+//@ lit#0 invariant rwf(window) && len(window.buffer) == w.Period && rsize(window) == min(w.Period, calls)
+//@ lit#0 invariant forall p :: 0 <= p && p < w.Period && rlpos(window, p) < rsize(window) ==> window.buffer[p] == values[calls - rsize(window) + rlpos(window, p)]
+//@ loop#0 invariant 0 <= i && i <= w.Period && rwf(window) && len(window.buffer) == w.Period && rsize(window) == w.Period && calls + 1 >= w.Period
+//@ loop#0 invariant forall p :: 0 <= p && p < w.Period ==> window.buffer[p] == values[calls + 1 - w.Period + rlpos(window, p)]
+//@ loop#0 invariant sum == wmaW(values, calls + 1 - w.Period, i, w.Period)
+//@ lit#0 yields (calls + 1 >= w.Period ? wmaW(values, calls + 1 - w.Period, w.Period, w.Period) / 2 : 0)
+//@ ensures[C01] "documented" forall k :: 0 <= k && k < len(result) ==> result[k] == wmaS(values, w.Period)[k]
 
+// WMA1 = WMA(period/2, values), WMA2 = WMA(period, values), WMA3 = WMA(sqrt(period), (2 * WMA1) - WMA2), HMA = WMA3,
+// WMA1 and WMA2 taken at the same bar
+//@ stream hmaDiffS(c stream, P1 int, P2 int)[j] = 2 * wmaS(c, P1)[j + P2 - P1] - wmaS(c, P2)[j]
 //@ func Hma.Compute
 //@ requires h.wma1.Period >= 1 && h.wma2.Period >= h.wma1.Period && h.wma3.Period >= 1 && consumed(values) == 0
 //@ ensures[C02] len(result) == max(0, len(values) - (h.IdlePeriod()))
 //@ ensures[C03] consumed(values) == len(values) && closed(result)
 //@ ensures[C04] forall kk :: 0 <= kk && kk < len(result) ==> hor(result, kk) <= hor(values, kk + (h.IdlePeriod()))
+//@ use wmaW_cong(valuesSplice[0], values, _, h.wma1.Period, h.wma1.Period)
+//@ use wmaW_cong(valuesSplice[1], values, _, h.wma2.Period, h.wma2.Period)
+//@ step[C01] "difference" forall j :: 0 <= j && j < len(res(Subtract, 0)) ==> res(Subtract, 0)[j] == hmaDiffS(values, h.wma1.Period, h.wma2.Period)[j]
+//@ use wmaW_cong(res(Subtract, 0), hmaDiffS(values, h.wma1.Period, h.wma2.Period), _, h.wma3.Period, h.wma3.Period)
+//@ ensures[C01] "documented" forall k :: 0 <= k && k < len(result) ==> result[k] == wmaS(hmaDiffS(values, h.wma1.Period, h.wma2.Period), h.wma3.Period)[k]
 
 // DEMA = (2 * EMA1(values)) - EMA2(EMA1(values)), both at the same bar
 //@ stream demaS(c stream, P1 int, m1 real, P2 int, m2 real)[k] = 2 * emaSt(c, P1, m1)[k + P2 - 1] - emaS(emaSt(c, P1, m1), P2, m2, k)
